@@ -1045,3 +1045,73 @@ mod tests {
 #[cfg(scylla_verif)]
 #[allow(missing_docs)]
 pub use tablets::verif_hooks as verif_tablets;
+
+/// Verification hooks (only with `--cfg scylla_verif`): `ReplicaSet::choose_filtered` driven by
+/// a scripted sequence of random draws instead of a caller-supplied `rand::Rng` (the random
+/// index is an oracle of the checked model). Pass-through only.
+#[cfg(scylla_verif)]
+#[allow(missing_docs)]
+pub mod verif_hooks {
+    use super::ReplicaSet;
+    use crate::cluster::NodeRef;
+    use crate::routing::Shard;
+
+    /// Yields the given 64-bit draws first, then a splitmix64 stream seeded by their sum.
+    /// `next_u32` is the high half of the next 64-bit draw.
+    pub struct ScriptedRng {
+        draws: std::vec::IntoIter<u64>,
+        state: u64,
+    }
+
+    impl ScriptedRng {
+        pub fn new(draws: Vec<u64>) -> Self {
+            let state = draws.iter().fold(0x9E37_79B9_7F4A_7C15u64, |a, d| {
+                a.wrapping_mul(31).wrapping_add(*d)
+            });
+            Self {
+                draws: draws.into_iter(),
+                state,
+            }
+        }
+    }
+
+    impl rand::RngCore for ScriptedRng {
+        fn next_u32(&mut self) -> u32 {
+            (self.next_u64() >> 32) as u32
+        }
+
+        fn next_u64(&mut self) -> u64 {
+            if let Some(d) = self.draws.next() {
+                return d;
+            }
+            self.state = self.state.wrapping_add(0x9E37_79B9_7F4A_7C15);
+            let mut x = self.state;
+            x = (x ^ (x >> 30)).wrapping_mul(0xBF58_476D_1CE4_E5B9);
+            x = (x ^ (x >> 27)).wrapping_mul(0x94D0_49BB_1331_11EB);
+            x ^ (x >> 31)
+        }
+
+        fn fill_bytes(&mut self, dst: &mut [u8]) {
+            for chunk in dst.chunks_mut(8) {
+                let b = self.next_u64().to_le_bytes();
+                chunk.copy_from_slice(&b[..chunk.len()]);
+            }
+        }
+    }
+
+    /// `set.choose_filtered(&mut ScriptedRng::new(draws), predicate)`.
+    pub fn choose_filtered<'a>(
+        set: ReplicaSet<'a>,
+        draws: Vec<u64>,
+        predicate: impl Fn(&(NodeRef<'a>, Shard)) -> bool,
+    ) -> Option<(NodeRef<'a>, Shard)> {
+        set.choose_filtered(&mut ScriptedRng::new(draws), predicate)
+    }
+
+    /// The index `rand` derives from the scripted draws for a range `0..len` (used by the
+    /// harness to calibrate which draw selects which index).
+    pub fn scripted_index(draws: Vec<u64>, len: usize) -> usize {
+        use rand::Rng;
+        ScriptedRng::new(draws).random_range(0..len)
+    }
+}
